@@ -15,6 +15,8 @@ CONSTANTS Proposers,     \* nodes on which clients call propose(); the k-th call
           Quiet          \* TRUE: clients call propose() only while no Prepare is in flight (a smaller
                          \* envelope: quick-tier run of the corrected design and the sensitivity run
                          \* of the restart deviation; the thorough tier explores Quiet = FALSE)
+CONSTANT  Cut            \* set of node pairs {a, b} that are partitioned for the whole run: messages
+                         \* between them are never delivered (e.g. {{1,3}}; {} = fully connected)
 
 VARIABLES node,      \* [Nodes -> node state]
           msgs,      \* bag of messages / timers in flight
@@ -63,6 +65,7 @@ ClientPropose(n, v) ==
 
 Deliver(m) ==
     /\ BagIn(m, msgs)
+    /\ {m.src, m.dst} \notin Cut
     /\ LET r == Handle(node[m.dst], m) IN
        /\ r.ns.cur <= MaxBallot
        /\ Apply(m.dst, r, SetToBag({m}))
